@@ -553,7 +553,8 @@ fn under_schedules(scheds: &[Schedule], case: &dyn Fn(Schedule) -> Value, sig: &
 fn run_sweeps(tier: vcore::Tier, st_out: &mut Stats) -> Value {
     let scheds = sweep_schedules(tier.pick(5, 9));
     // schema space (C14's): all tiers use the quick space, the thorough tier its k = 2 space too
-    let (st, sb) = checks::schemas::sweep(tier, |c, st| {
+    // (the k = 2 schema space is not used here: 9 schedules x that space takes over an hour)
+    let (st, sb) = checks::schemas::sweep(vcore::Tier::Quick, |c, st| {
         let text = c.text.to_string();
         under_schedules(
             &scheds,
